@@ -71,6 +71,29 @@ pub trait Adapter: 'static + Sized {
     fn make_poly(spec: &PolySpec, beh: &Beh, rng: &mut ChaCha20Rng) -> Self::P;
     fn make_point(id: i64, beh: &Beh) -> Self::Pt;
 
+    /// Crafted proofs for one group of a statement as shown to the verifier (`sp` = the verifier's sponge at
+    /// the start of that group); returns the proof to substitute.
+    fn forge_group(
+        _kind: &str,
+        _vk: &VK<Self>,
+        _comms: &[&LabeledCommitment<Comm<Self>>],
+        _point: &Self::Pt,
+        _values: &[Self::F],
+        _proof: &Proof<Self>,
+        _sp: &mut LogSponge<Self::F>,
+    ) -> Option<Proof<Self>> {
+        None
+    }
+
+    /// KZG-type proofs: add e * g (g = the verifier key's G1 generator) to the (first) witness element.
+    fn shift_witness(_vk: &VK<Self>, _proof: &mut Proof<Self>, _e: Self::F) -> bool {
+        false
+    }
+    /// First coordinate of an evaluation point as a field element.
+    fn point_coord0(_pt: &Self::Pt) -> Option<Self::F> {
+        None
+    }
+
     /// Linear codes: universal parameters built through the public constructors with the option
     /// `check_well_formedness = false` (the default `setup` always switches it on).
     fn setup_without_wf(_max_degree: usize, _num_vars: Option<usize>, _rng: &mut ChaCha20Rng) -> Option<Self::UP> {
@@ -462,6 +485,13 @@ impl Adapter for Marlin {
         }
         Some(v)
     }
+    fn shift_witness(vk: &VK<Self>, proof: &mut Proof<Self>, e: Self::F) -> bool {
+        proof.w = (proof.w.into_group() + vk.vk.g.into_group() * e).into_affine();
+        true
+    }
+    fn point_coord0(pt: &Self::Pt) -> Option<Self::F> {
+        Some(*pt)
+    }
     fn make_point(id: i64, _beh: &Beh) -> Self::Pt {
         point_fe(id)
     }
@@ -586,6 +616,13 @@ impl Adapter for Sonic {
         }
         Some(v)
     }
+    fn shift_witness(vk: &VK<Self>, proof: &mut Proof<Self>, e: Self::F) -> bool {
+        proof.w = (proof.w.into_group() + vk.g.into_group() * e).into_affine();
+        true
+    }
+    fn point_coord0(pt: &Self::Pt) -> Option<Self::F> {
+        Some(*pt)
+    }
     fn make_point(id: i64, _beh: &Beh) -> Self::Pt {
         point_fe(id)
     }
@@ -673,6 +710,23 @@ impl Adapter for Ipa {
             _ => return None,
         }
         Some(c)
+    }
+    fn forge_group(
+        kind: &str,
+        vk: &VK<Self>,
+        comms: &[&LabeledCommitment<Comm<Self>>],
+        point: &Self::Pt,
+        values: &[Self::F],
+        proof: &Proof<Self>,
+        sp: &mut LogSponge<Self::F>,
+    ) -> Option<Proof<Self>> {
+        if kind != "forge_ipa_key" {
+            return None;
+        }
+        let k = crate::relation::ipa_forged_final_key(vk, comms, point, values, proof, sp)?;
+        let mut p = proof.clone();
+        p.final_comm_key = k;
+        Some(p)
     }
     fn proof_mutation(
         kind: &str,
@@ -813,6 +867,16 @@ impl Adapter for Pst13 {
             _ => return None,
         }
         Some(v)
+    }
+    fn shift_witness(vk: &VK<Self>, proof: &mut Proof<Self>, e: Self::F) -> bool {
+        if proof.w.is_empty() {
+            return false;
+        }
+        proof.w[0] = (proof.w[0].into_group() + vk.g.into_group() * e).into_affine();
+        true
+    }
+    fn point_coord0(pt: &Self::Pt) -> Option<Self::F> {
+        pt.first().cloned()
     }
     fn make_point(id: i64, beh: &Beh) -> Self::Pt {
         point_vec(id, nv_of(beh))
